@@ -141,13 +141,31 @@ Proof.
   exists k. split; [reflexivity|]. apply andb_true_iff in Hf as [Hc _]. apply Nat.eqb_eq. exact Hc.
 Qed.
 
-Lemma from_tuple1_sound : forall T, from_tuple1_ok T = true ->
+(* the body as it was before fix d9b019c: well typed only without one-element tuple variants *)
+Lemma from_tuple1_prefix_sound : forall T, from_tuple1_ok_cfg false T = true ->
   forall n df tag vs deny bes, In (DEnum n df tag vs deny bes) (named_dets T) ->
   forall v t, In v (from_variants T vs) -> v_det v <> VTuple [t].
 Proof.
-  intros T H n df tag vs deny bes Hd v t Hv Heq. unfold from_tuple1_ok in H. rewrite forallb_forall in H.
+  intros T H n df tag vs deny bes Hd v t Hv Heq. unfold from_tuple1_ok_cfg in H. rewrite forallb_forall in H.
   specialize (H _ Hd). simpl in H. rewrite forallb_forall in H. specialize (H v Hv).
   rewrite Heq in H. discriminate H.
+Qed.
+
+Lemma fty_eqb_refl : forall a, fty_eqb a a = true.
+Proof. intros [x|x]; simpl; apply N.eqb_refl. Qed.
+
+Lemma ftys_eqb_refl : forall l, ftys_eqb l l = true.
+Proof. induction l as [|a l IH]; simpl; [reflexivity|]. rewrite fty_eqb_refl. exact IH. Qed.
+
+(* the body since fix d9b019c: the arguments are the declared fields, for every arity and every space *)
+Lemma from_body_fixed_matches : forall ts, from_body_args true ts = declared_fields ts.
+Proof. intros [|a [|b r]]; reflexivity. Qed.
+
+Lemma from_tuple1_fixed : forall T, from_tuple1_ok T = true.
+Proof.
+  intro T. unfold from_tuple1_ok, from_tuple1_ok_cfg, from_body_fixed. apply forallb_forall. intros d _.
+  destruct d; simpl; try reflexivity. apply forallb_forall. intros v _.
+  destruct (v_det v); try reflexivity. rewrite from_body_fixed_matches. apply ftys_eqb_refl.
 Qed.
 
 Lemma deref_acyclic_sound : forall T, deref_acyclic T = true ->
@@ -264,6 +282,14 @@ Proof.
   - left. reflexivity.
 Qed.
 
+Lemma default_tuple1_sound : forall T, default_tuple1_ok T = true ->
+  forall d, In d (named_dets T) -> forall e, In e (rendered_defaults T d) ->
+  Value.expr_any (tuple1_variant_expr T) e = false.
+Proof.
+  intros T H d Hd e He. unfold default_tuple1_ok in H. rewrite forallb_forall in H. specialize (H d Hd).
+  rewrite forallb_forall in H. specialize (H e He). apply negb_true_iff in H. exact H.
+Qed.
+
 (* ------------------------------------------------------------------ prelude capture *)
 Lemma prelude_sound : forall T,
   prelude_default_ok T = true -> prelude_vec_ok T = true -> prelude_result_ok T = true ->
@@ -308,8 +334,8 @@ Proof. intros. unfold wf_report, wf_module. apply filter_negb_nil. Qed.
 (* the conjuncts typify's construction does not establish by itself: each is the class of a
    recorded finding, or a condition of the IR the converter (not modelled) is responsible for *)
 Definition residual_conjuncts : list conjunct :=
-  [CModnames; CDefaultFns; CUntaggedSimple; CFromVariants; CFromTuple1; CDerefCycle; CTryFromString;
-   CAcyclic; CDeriveBounds; CSerdeRules; CSerdeDefault; CDefaults; CPreludeDefault; CPreludeVec;
+  [CModnames; CDefaultFns; CUntaggedSimple; CFromVariants; CDerefCycle; CTryFromString;
+   CAcyclic; CDeriveBounds; CSerdeRules; CSerdeDefault; CDefaults; CDefaultTuple1; CPreludeDefault; CPreludeVec;
    CPreludeResult].
 
 (* C01_wf_from_parts: the judgment follows from
@@ -332,6 +358,7 @@ Proof.
   - apply fields_unique_sound. exact Hf.
   - apply variants_unique_sound. exact Hv.
   - apply idents_valid_from_C08; assumption.
+  - apply from_tuple1_fixed.
 Qed.
 
 (* what wf_module guarantees, Prop level (the statement of C01_wf_module_partial) *)
@@ -401,14 +428,23 @@ Definition witness (c : conjunct) : space :=
       sp false (base ++ [(3, DStruct (us "P") None [mkProp (us "n") RNone POptional 4] false);
                          (4, DInteger (us "::std::num::NonZeroU32"))])
   | CDefaults => sp false (base ++ [(3, DStruct (us "P") None [mkProp (us "n") RNone (PDefault JNull) 4] false); (4, DUnit)])
+  | CDefaultTuple1 =>
+      sp false (base ++ [(3, DEnum (us "E") None TagUntagged [mkVariant (us "a") (us "A") (VTuple [2])] false []);
+                         (4, DStruct (us "P") None [mkProp (us "p") RNone (PDefault (JArr [JInt (3)%Z])) 3] false)])
   | CPreludeDefault =>
       sp false (base ++ [(5, DOption 1); (3, DStruct (us "Default") None [mkProp (us "o") RNone POptional 5] false)])
   | CPreludeVec => sp false (base ++ [(5, DSet 1); (3, DStruct (us "Vec") None [rq "a" 5] false)])
   | CPreludeResult => sp false (base ++ [(3, DNewtype (us "Ok") None 1 (CString None None (Some (us "^b+$"))))])
   end.
 
-Theorem known_classes_fail : forall c, holds Sanitize.ascii_classes (witness c) c = false.
-Proof. intro c. destruct c; vm_compute; reflexivity. Qed.
+Theorem known_classes_fail : forall c, c <> CFromTuple1 -> holds Sanitize.ascii_classes (witness c) c = false.
+Proof. intros c Hc. destruct c; try (vm_compute; reflexivity). exfalso. apply Hc. reflexivity. Qed.
+
+(* C01-6 (fixed by d9b019c): the pre-fix body is ill typed on the witness, the current one is not *)
+Theorem from_tuple1_regression :
+  from_tuple1_ok_cfg false (witness CFromTuple1) = false /\
+  wf_module Sanitize.ascii_classes (witness CFromTuple1) = true.
+Proof. split; vm_compute; reflexivity. Qed.
 
 (* ------------------------------------------------------------------ non-vacuity *)
 Definition ex_ok : space :=
